@@ -178,7 +178,9 @@ def observe(result, items, owner, ninputs):
 
 def compare(model, obs, result):
     """None if the implementation did what the model says, else a description"""
-    hand = [hx(e) for _, e in result.handoffs if e]      # a child that got no envelope (refused message) is no hand-off
+    # a hand-off in the sense of the properties: the child got a complete envelope and accepted (exit 0)
+    codes = getattr(result, 'handoff_codes', None) or [0] * len(result.handoffs)
+    hand = [hx(e) for (_, e), c in zip(result.handoffs, codes) if e and c == 0]
     mh = [m['handoff'] for m in model if m['handoff'] != '-']
     for i, (m, o) in enumerate(zip(model, obs)):
         if m['codes'] != o['codes']:
